@@ -67,7 +67,10 @@ def run_checks(patch):
         return {"error": "patch does not apply to /repo: " + out[-300:]}
     results = {}
     try:
+        only = os.environ.get("SEED_PROPS")
         for p in ALL:
+            if only and p not in only.replace("OWN", os.environ.get("SEED_OWN", "")).split(","):
+                continue
             t0 = time.time()
             rc, out = sh("./check %s quick" % p, VERIF)
             line = ""
@@ -102,6 +105,7 @@ def main():
                 continue
             conf = confirm(pid, x, wt)
             confirmed = all(conf.get(k) for k in ["clean_demo_passes", "patch_applies", "lib_tests_pass", "doc_tests_pass", "patched_demo_fails"])
+            os.environ["SEED_OWN"] = pid
             checks = run_checks(patch) if confirmed else {}
             caught = sorted(p for p, v in checks.items() if isinstance(v, dict) and v.get("exit") == 1)
             other = sorted(p for p, v in checks.items() if isinstance(v, dict) and v.get("exit") not in (0, 1))
